@@ -162,6 +162,10 @@ pub struct UserFileG {
     pub red1: Option<[f32; 3]>,
     pub red2: Option<[f32; 3]>,
     pub comments: bool,
+    /// RED-sourced lines that are not a supply factor of step A (`X, RED, SUMINISTRO, B`, `X, RED, A_RED, A`, ...):
+    /// they parse, nothing reads them, and they must not pass for the carrier's grid factor. (selector, shape, value);
+    /// placed before everything else
+    pub odd: Vec<(u8, u8, [f32; 3])>,
 }
 
 pub fn user_file_g() -> BoxedStrategy<UserFileG> {
@@ -175,8 +179,9 @@ pub fn user_file_g() -> BoxedStrategy<UserFileG> {
         opt_triple(),
         opt_triple(),
         any::<bool>(),
+        prop_oneof![3 => Just(vec![]), 1 => vec((any::<u8>(), 0u8..4, triple()), 1..=2)],
     )
-        .prop_map(|(grid, exports, onsite, dups, order, shuffle, red1, red2, comments)| UserFileG {
+        .prop_map(|(grid, exports, onsite, dups, order, shuffle, red1, red2, comments, odd)| UserFileG {
             grid,
             exports,
             onsite,
@@ -186,6 +191,7 @@ pub fn user_file_g() -> BoxedStrategy<UserFileG> {
             red1,
             red2,
             comments,
+            odd,
         })
         .boxed()
 }
@@ -237,7 +243,27 @@ pub fn resolve_user_file(g: &UserFileG, need: &[Car], usable: bool) -> FactorCas
         lines.push(FLine { f: *f, comment: "duplicado".into(), ..src });
     }
     let _ = usable;
+    // odd RED-sourced lines of carriers that do have their grid factor, ahead of it in the file
+    let with_grid: Vec<Car> = lines.iter().filter(|l| l.src == FSrc::RED && l.dest == FDest::SUMINISTRO && l.step == FStep::A).map(|l| l.car).collect();
+    for (sel, shape, f) in g.odd.iter().rev() {
+        if with_grid.is_empty() {
+            break;
+        }
+        let car = with_grid[(*sel as usize * with_grid.len()) >> 8];
+        let (dest, step) = odd_red_shape(*shape);
+        lines.insert(0, FLine { car, src: FSrc::RED, dest, step, f: *f, comment: String::new() });
+    }
     FactorCase::UserFile { meta: vec![], lines, red1: g.red1, red2: g.red2 }
+}
+
+/// the four shapes of a RED-sourced line that is not `RED, SUMINISTRO, A`
+pub fn odd_red_shape(i: u8) -> (FDest, FStep) {
+    match i % 4 {
+        0 => (FDest::SUMINISTRO, FStep::B),
+        1 => (FDest::A_RED, FStep::A),
+        2 => (FDest::A_RED, FStep::B),
+        _ => (FDest::A_NEPB, FStep::A),
+    }
 }
 
 /// factor case for a building with the given carriers: 70 % user files, 30 % regulatory
